@@ -7,6 +7,11 @@ const F21: Shape = Shape::follower3(2, 1);
 const F21T: Shape = Shape::follower3(2, 1).with_terms(&[1, 2, 3]);
 const L21T: c14::LogShape = c14::LogShape { base: 0, n_stable: 2, n_unstable: 1, terms: &[1, 2, 3] };
 const F30: Shape = Shape::follower3(3, 0);
+const S3: c12::CShape = c12::CShape { inc: &[1, 2, 3], out: &[], lrn: &[], nxt: &[], auto: false };
+const S3L: c12::CShape = c12::CShape { inc: &[1, 2, 3], out: &[], lrn: &[4], nxt: &[], auto: false };
+const S1: c12::CShape = c12::CShape { inc: &[1], out: &[], lrn: &[], nxt: &[], auto: false };
+const J1: c12::CShape = c12::CShape { inc: &[1, 2], out: &[1, 2, 3], lrn: &[4], nxt: &[3], auto: true };
+const J2: c12::CShape = c12::CShape { inc: &[1, 2, 4], out: &[1, 2, 3], lrn: &[], nxt: &[], auto: false };
 const CAND3: Shape = Shape::follower3(3, 0).with_role(StateRole::Candidate).with_term(5).with_terms(&[1, 2, 3]).with_commit(1).with_votes(&[(1, true)]);
 const PRE3: Shape = Shape::follower3(3, 0).with_role(StateRole::PreCandidate).with_term(5).with_terms(&[1, 2, 3]).with_commit(1).with_votes(&[(1, true)]);
 const CAND5: Shape = CAND3.with_conf(&[1, 2, 3, 4, 5], &[], &[], &[], false);
@@ -555,6 +560,298 @@ harnesses! {
     { @nostub quorum_tracker_2, "C11", quick, unwind = 8,
       "same for the two-voter configuration {1,2} (even size: a single rejection decides)",
       |s| c11::tracker(s, &[1, 2], &[]) }
+    // ---------------- C12 configuration-change algebra ----------------
+    { cc_simple_s3l_addnode_0, "C12", quick, unwind = 8,
+      "Changer::simple on voters {1,2,3} + learner 4: AddNode(0); reference-semantics equality, invariants (voters/learners disjoint, staged learners inside outgoing, >=1 voter, progress = members), <=1 voter changed for simple, quorum overlap old/new with two symbolic quorums, reject leaves everything untouched",
+      |s| c12::change(s, &S3L, 0, &[0], &[&[0]]) }
+    { cc_simple_s3l_addnode_1, "C12", quick, unwind = 8,
+      "Changer::simple on voters {1,2,3} + learner 4: AddNode(1); reference-semantics equality, invariants (voters/learners disjoint, staged learners inside outgoing, >=1 voter, progress = members), <=1 voter changed for simple, quorum overlap old/new with two symbolic quorums, reject leaves everything untouched",
+      |s| c12::change(s, &S3L, 0, &[0], &[&[1]]) }
+    { cc_simple_s3l_addnode_3, "C12", quick, unwind = 8,
+      "Changer::simple on voters {1,2,3} + learner 4: AddNode(3); reference-semantics equality, invariants (voters/learners disjoint, staged learners inside outgoing, >=1 voter, progress = members), <=1 voter changed for simple, quorum overlap old/new with two symbolic quorums, reject leaves everything untouched",
+      |s| c12::change(s, &S3L, 0, &[0], &[&[3]]) }
+    { cc_simple_s3l_addnode_4, "C12", quick, unwind = 8,
+      "Changer::simple on voters {1,2,3} + learner 4: AddNode(4); reference-semantics equality, invariants (voters/learners disjoint, staged learners inside outgoing, >=1 voter, progress = members), <=1 voter changed for simple, quorum overlap old/new with two symbolic quorums, reject leaves everything untouched",
+      |s| c12::change(s, &S3L, 0, &[0], &[&[4]]) }
+    { cc_simple_s3l_addnode_5, "C12", quick, unwind = 8,
+      "Changer::simple on voters {1,2,3} + learner 4: AddNode(5); reference-semantics equality, invariants (voters/learners disjoint, staged learners inside outgoing, >=1 voter, progress = members), <=1 voter changed for simple, quorum overlap old/new with two symbolic quorums, reject leaves everything untouched",
+      |s| c12::change(s, &S3L, 0, &[0], &[&[5]]) }
+    { cc_simple_s3l_removenode_0, "C12", quick, unwind = 8,
+      "Changer::simple on voters {1,2,3} + learner 4: RemoveNode(0); reference-semantics equality, invariants (voters/learners disjoint, staged learners inside outgoing, >=1 voter, progress = members), <=1 voter changed for simple, quorum overlap old/new with two symbolic quorums, reject leaves everything untouched",
+      |s| c12::change(s, &S3L, 0, &[1], &[&[0]]) }
+    { cc_simple_s3l_removenode_1, "C12", quick, unwind = 8,
+      "Changer::simple on voters {1,2,3} + learner 4: RemoveNode(1); reference-semantics equality, invariants (voters/learners disjoint, staged learners inside outgoing, >=1 voter, progress = members), <=1 voter changed for simple, quorum overlap old/new with two symbolic quorums, reject leaves everything untouched",
+      |s| c12::change(s, &S3L, 0, &[1], &[&[1]]) }
+    { cc_simple_s3l_removenode_3, "C12", quick, unwind = 8,
+      "Changer::simple on voters {1,2,3} + learner 4: RemoveNode(3); reference-semantics equality, invariants (voters/learners disjoint, staged learners inside outgoing, >=1 voter, progress = members), <=1 voter changed for simple, quorum overlap old/new with two symbolic quorums, reject leaves everything untouched",
+      |s| c12::change(s, &S3L, 0, &[1], &[&[3]]) }
+    { cc_simple_s3l_removenode_4, "C12", quick, unwind = 8,
+      "Changer::simple on voters {1,2,3} + learner 4: RemoveNode(4); reference-semantics equality, invariants (voters/learners disjoint, staged learners inside outgoing, >=1 voter, progress = members), <=1 voter changed for simple, quorum overlap old/new with two symbolic quorums, reject leaves everything untouched",
+      |s| c12::change(s, &S3L, 0, &[1], &[&[4]]) }
+    { cc_simple_s3l_removenode_5, "C12", quick, unwind = 8,
+      "Changer::simple on voters {1,2,3} + learner 4: RemoveNode(5); reference-semantics equality, invariants (voters/learners disjoint, staged learners inside outgoing, >=1 voter, progress = members), <=1 voter changed for simple, quorum overlap old/new with two symbolic quorums, reject leaves everything untouched",
+      |s| c12::change(s, &S3L, 0, &[1], &[&[5]]) }
+    { cc_simple_s3l_addlearnernode_0, "C12", quick, unwind = 8,
+      "Changer::simple on voters {1,2,3} + learner 4: AddLearnerNode(0); reference-semantics equality, invariants (voters/learners disjoint, staged learners inside outgoing, >=1 voter, progress = members), <=1 voter changed for simple, quorum overlap old/new with two symbolic quorums, reject leaves everything untouched",
+      |s| c12::change(s, &S3L, 0, &[2], &[&[0]]) }
+    { cc_simple_s3l_addlearnernode_1, "C12", quick, unwind = 8,
+      "Changer::simple on voters {1,2,3} + learner 4: AddLearnerNode(1); reference-semantics equality, invariants (voters/learners disjoint, staged learners inside outgoing, >=1 voter, progress = members), <=1 voter changed for simple, quorum overlap old/new with two symbolic quorums, reject leaves everything untouched",
+      |s| c12::change(s, &S3L, 0, &[2], &[&[1]]) }
+    { cc_simple_s3l_addlearnernode_3, "C12", quick, unwind = 8,
+      "Changer::simple on voters {1,2,3} + learner 4: AddLearnerNode(3); reference-semantics equality, invariants (voters/learners disjoint, staged learners inside outgoing, >=1 voter, progress = members), <=1 voter changed for simple, quorum overlap old/new with two symbolic quorums, reject leaves everything untouched",
+      |s| c12::change(s, &S3L, 0, &[2], &[&[3]]) }
+    { cc_simple_s3l_addlearnernode_4, "C12", quick, unwind = 8,
+      "Changer::simple on voters {1,2,3} + learner 4: AddLearnerNode(4); reference-semantics equality, invariants (voters/learners disjoint, staged learners inside outgoing, >=1 voter, progress = members), <=1 voter changed for simple, quorum overlap old/new with two symbolic quorums, reject leaves everything untouched",
+      |s| c12::change(s, &S3L, 0, &[2], &[&[4]]) }
+    { cc_simple_s3l_addlearnernode_5, "C12", quick, unwind = 8,
+      "Changer::simple on voters {1,2,3} + learner 4: AddLearnerNode(5); reference-semantics equality, invariants (voters/learners disjoint, staged learners inside outgoing, >=1 voter, progress = members), <=1 voter changed for simple, quorum overlap old/new with two symbolic quorums, reject leaves everything untouched",
+      |s| c12::change(s, &S3L, 0, &[2], &[&[5]]) }
+    { cc_simple_s3_addnode_0, "C12", thorough, unwind = 8,
+      "Changer::simple on voters {1,2,3}: AddNode(0); reference-semantics equality, invariants (voters/learners disjoint, staged learners inside outgoing, >=1 voter, progress = members), <=1 voter changed for simple, quorum overlap old/new with two symbolic quorums, reject leaves everything untouched",
+      |s| c12::change(s, &S3, 0, &[0], &[&[0]]) }
+    { cc_simple_s3_addnode_1, "C12", thorough, unwind = 8,
+      "Changer::simple on voters {1,2,3}: AddNode(1); reference-semantics equality, invariants (voters/learners disjoint, staged learners inside outgoing, >=1 voter, progress = members), <=1 voter changed for simple, quorum overlap old/new with two symbolic quorums, reject leaves everything untouched",
+      |s| c12::change(s, &S3, 0, &[0], &[&[1]]) }
+    { cc_simple_s3_addnode_3, "C12", thorough, unwind = 8,
+      "Changer::simple on voters {1,2,3}: AddNode(3); reference-semantics equality, invariants (voters/learners disjoint, staged learners inside outgoing, >=1 voter, progress = members), <=1 voter changed for simple, quorum overlap old/new with two symbolic quorums, reject leaves everything untouched",
+      |s| c12::change(s, &S3, 0, &[0], &[&[3]]) }
+    { cc_simple_s3_addnode_4, "C12", thorough, unwind = 8,
+      "Changer::simple on voters {1,2,3}: AddNode(4); reference-semantics equality, invariants (voters/learners disjoint, staged learners inside outgoing, >=1 voter, progress = members), <=1 voter changed for simple, quorum overlap old/new with two symbolic quorums, reject leaves everything untouched",
+      |s| c12::change(s, &S3, 0, &[0], &[&[4]]) }
+    { cc_simple_s3_addnode_5, "C12", thorough, unwind = 8,
+      "Changer::simple on voters {1,2,3}: AddNode(5); reference-semantics equality, invariants (voters/learners disjoint, staged learners inside outgoing, >=1 voter, progress = members), <=1 voter changed for simple, quorum overlap old/new with two symbolic quorums, reject leaves everything untouched",
+      |s| c12::change(s, &S3, 0, &[0], &[&[5]]) }
+    { cc_simple_s3_removenode_0, "C12", thorough, unwind = 8,
+      "Changer::simple on voters {1,2,3}: RemoveNode(0); reference-semantics equality, invariants (voters/learners disjoint, staged learners inside outgoing, >=1 voter, progress = members), <=1 voter changed for simple, quorum overlap old/new with two symbolic quorums, reject leaves everything untouched",
+      |s| c12::change(s, &S3, 0, &[1], &[&[0]]) }
+    { cc_simple_s3_removenode_1, "C12", thorough, unwind = 8,
+      "Changer::simple on voters {1,2,3}: RemoveNode(1); reference-semantics equality, invariants (voters/learners disjoint, staged learners inside outgoing, >=1 voter, progress = members), <=1 voter changed for simple, quorum overlap old/new with two symbolic quorums, reject leaves everything untouched",
+      |s| c12::change(s, &S3, 0, &[1], &[&[1]]) }
+    { cc_simple_s3_removenode_3, "C12", thorough, unwind = 8,
+      "Changer::simple on voters {1,2,3}: RemoveNode(3); reference-semantics equality, invariants (voters/learners disjoint, staged learners inside outgoing, >=1 voter, progress = members), <=1 voter changed for simple, quorum overlap old/new with two symbolic quorums, reject leaves everything untouched",
+      |s| c12::change(s, &S3, 0, &[1], &[&[3]]) }
+    { cc_simple_s3_removenode_4, "C12", thorough, unwind = 8,
+      "Changer::simple on voters {1,2,3}: RemoveNode(4); reference-semantics equality, invariants (voters/learners disjoint, staged learners inside outgoing, >=1 voter, progress = members), <=1 voter changed for simple, quorum overlap old/new with two symbolic quorums, reject leaves everything untouched",
+      |s| c12::change(s, &S3, 0, &[1], &[&[4]]) }
+    { cc_simple_s3_removenode_5, "C12", thorough, unwind = 8,
+      "Changer::simple on voters {1,2,3}: RemoveNode(5); reference-semantics equality, invariants (voters/learners disjoint, staged learners inside outgoing, >=1 voter, progress = members), <=1 voter changed for simple, quorum overlap old/new with two symbolic quorums, reject leaves everything untouched",
+      |s| c12::change(s, &S3, 0, &[1], &[&[5]]) }
+    { cc_simple_s3_addlearnernode_0, "C12", thorough, unwind = 8,
+      "Changer::simple on voters {1,2,3}: AddLearnerNode(0); reference-semantics equality, invariants (voters/learners disjoint, staged learners inside outgoing, >=1 voter, progress = members), <=1 voter changed for simple, quorum overlap old/new with two symbolic quorums, reject leaves everything untouched",
+      |s| c12::change(s, &S3, 0, &[2], &[&[0]]) }
+    { cc_simple_s3_addlearnernode_1, "C12", thorough, unwind = 8,
+      "Changer::simple on voters {1,2,3}: AddLearnerNode(1); reference-semantics equality, invariants (voters/learners disjoint, staged learners inside outgoing, >=1 voter, progress = members), <=1 voter changed for simple, quorum overlap old/new with two symbolic quorums, reject leaves everything untouched",
+      |s| c12::change(s, &S3, 0, &[2], &[&[1]]) }
+    { cc_simple_s3_addlearnernode_3, "C12", thorough, unwind = 8,
+      "Changer::simple on voters {1,2,3}: AddLearnerNode(3); reference-semantics equality, invariants (voters/learners disjoint, staged learners inside outgoing, >=1 voter, progress = members), <=1 voter changed for simple, quorum overlap old/new with two symbolic quorums, reject leaves everything untouched",
+      |s| c12::change(s, &S3, 0, &[2], &[&[3]]) }
+    { cc_simple_s3_addlearnernode_4, "C12", thorough, unwind = 8,
+      "Changer::simple on voters {1,2,3}: AddLearnerNode(4); reference-semantics equality, invariants (voters/learners disjoint, staged learners inside outgoing, >=1 voter, progress = members), <=1 voter changed for simple, quorum overlap old/new with two symbolic quorums, reject leaves everything untouched",
+      |s| c12::change(s, &S3, 0, &[2], &[&[4]]) }
+    { cc_simple_s3_addlearnernode_5, "C12", thorough, unwind = 8,
+      "Changer::simple on voters {1,2,3}: AddLearnerNode(5); reference-semantics equality, invariants (voters/learners disjoint, staged learners inside outgoing, >=1 voter, progress = members), <=1 voter changed for simple, quorum overlap old/new with two symbolic quorums, reject leaves everything untouched",
+      |s| c12::change(s, &S3, 0, &[2], &[&[5]]) }
+    { cc_simple_s1_addnode_0, "C12", thorough, unwind = 8,
+      "Changer::simple on single voter {1}: AddNode(0); reference-semantics equality, invariants (voters/learners disjoint, staged learners inside outgoing, >=1 voter, progress = members), <=1 voter changed for simple, quorum overlap old/new with two symbolic quorums, reject leaves everything untouched",
+      |s| c12::change(s, &S1, 0, &[0], &[&[0]]) }
+    { cc_simple_s1_addnode_1, "C12", thorough, unwind = 8,
+      "Changer::simple on single voter {1}: AddNode(1); reference-semantics equality, invariants (voters/learners disjoint, staged learners inside outgoing, >=1 voter, progress = members), <=1 voter changed for simple, quorum overlap old/new with two symbolic quorums, reject leaves everything untouched",
+      |s| c12::change(s, &S1, 0, &[0], &[&[1]]) }
+    { cc_simple_s1_addnode_3, "C12", thorough, unwind = 8,
+      "Changer::simple on single voter {1}: AddNode(3); reference-semantics equality, invariants (voters/learners disjoint, staged learners inside outgoing, >=1 voter, progress = members), <=1 voter changed for simple, quorum overlap old/new with two symbolic quorums, reject leaves everything untouched",
+      |s| c12::change(s, &S1, 0, &[0], &[&[3]]) }
+    { cc_simple_s1_addnode_4, "C12", thorough, unwind = 8,
+      "Changer::simple on single voter {1}: AddNode(4); reference-semantics equality, invariants (voters/learners disjoint, staged learners inside outgoing, >=1 voter, progress = members), <=1 voter changed for simple, quorum overlap old/new with two symbolic quorums, reject leaves everything untouched",
+      |s| c12::change(s, &S1, 0, &[0], &[&[4]]) }
+    { cc_simple_s1_addnode_5, "C12", thorough, unwind = 8,
+      "Changer::simple on single voter {1}: AddNode(5); reference-semantics equality, invariants (voters/learners disjoint, staged learners inside outgoing, >=1 voter, progress = members), <=1 voter changed for simple, quorum overlap old/new with two symbolic quorums, reject leaves everything untouched",
+      |s| c12::change(s, &S1, 0, &[0], &[&[5]]) }
+    { cc_simple_s1_removenode_0, "C12", thorough, unwind = 8,
+      "Changer::simple on single voter {1}: RemoveNode(0); reference-semantics equality, invariants (voters/learners disjoint, staged learners inside outgoing, >=1 voter, progress = members), <=1 voter changed for simple, quorum overlap old/new with two symbolic quorums, reject leaves everything untouched",
+      |s| c12::change(s, &S1, 0, &[1], &[&[0]]) }
+    { cc_simple_s1_removenode_1, "C12", quick, unwind = 8,
+      "Changer::simple on single voter {1}: RemoveNode(1); reference-semantics equality, invariants (voters/learners disjoint, staged learners inside outgoing, >=1 voter, progress = members), <=1 voter changed for simple, quorum overlap old/new with two symbolic quorums, reject leaves everything untouched",
+      |s| c12::change(s, &S1, 0, &[1], &[&[1]]) }
+    { cc_simple_s1_removenode_3, "C12", thorough, unwind = 8,
+      "Changer::simple on single voter {1}: RemoveNode(3); reference-semantics equality, invariants (voters/learners disjoint, staged learners inside outgoing, >=1 voter, progress = members), <=1 voter changed for simple, quorum overlap old/new with two symbolic quorums, reject leaves everything untouched",
+      |s| c12::change(s, &S1, 0, &[1], &[&[3]]) }
+    { cc_simple_s1_removenode_4, "C12", thorough, unwind = 8,
+      "Changer::simple on single voter {1}: RemoveNode(4); reference-semantics equality, invariants (voters/learners disjoint, staged learners inside outgoing, >=1 voter, progress = members), <=1 voter changed for simple, quorum overlap old/new with two symbolic quorums, reject leaves everything untouched",
+      |s| c12::change(s, &S1, 0, &[1], &[&[4]]) }
+    { cc_simple_s1_removenode_5, "C12", thorough, unwind = 8,
+      "Changer::simple on single voter {1}: RemoveNode(5); reference-semantics equality, invariants (voters/learners disjoint, staged learners inside outgoing, >=1 voter, progress = members), <=1 voter changed for simple, quorum overlap old/new with two symbolic quorums, reject leaves everything untouched",
+      |s| c12::change(s, &S1, 0, &[1], &[&[5]]) }
+    { cc_simple_s1_addlearnernode_0, "C12", thorough, unwind = 8,
+      "Changer::simple on single voter {1}: AddLearnerNode(0); reference-semantics equality, invariants (voters/learners disjoint, staged learners inside outgoing, >=1 voter, progress = members), <=1 voter changed for simple, quorum overlap old/new with two symbolic quorums, reject leaves everything untouched",
+      |s| c12::change(s, &S1, 0, &[2], &[&[0]]) }
+    { cc_simple_s1_addlearnernode_1, "C12", thorough, unwind = 8,
+      "Changer::simple on single voter {1}: AddLearnerNode(1); reference-semantics equality, invariants (voters/learners disjoint, staged learners inside outgoing, >=1 voter, progress = members), <=1 voter changed for simple, quorum overlap old/new with two symbolic quorums, reject leaves everything untouched",
+      |s| c12::change(s, &S1, 0, &[2], &[&[1]]) }
+    { cc_simple_s1_addlearnernode_3, "C12", thorough, unwind = 8,
+      "Changer::simple on single voter {1}: AddLearnerNode(3); reference-semantics equality, invariants (voters/learners disjoint, staged learners inside outgoing, >=1 voter, progress = members), <=1 voter changed for simple, quorum overlap old/new with two symbolic quorums, reject leaves everything untouched",
+      |s| c12::change(s, &S1, 0, &[2], &[&[3]]) }
+    { cc_simple_s1_addlearnernode_4, "C12", thorough, unwind = 8,
+      "Changer::simple on single voter {1}: AddLearnerNode(4); reference-semantics equality, invariants (voters/learners disjoint, staged learners inside outgoing, >=1 voter, progress = members), <=1 voter changed for simple, quorum overlap old/new with two symbolic quorums, reject leaves everything untouched",
+      |s| c12::change(s, &S1, 0, &[2], &[&[4]]) }
+    { cc_simple_s1_addlearnernode_5, "C12", thorough, unwind = 8,
+      "Changer::simple on single voter {1}: AddLearnerNode(5); reference-semantics equality, invariants (voters/learners disjoint, staged learners inside outgoing, >=1 voter, progress = members), <=1 voter changed for simple, quorum overlap old/new with two symbolic quorums, reject leaves everything untouched",
+      |s| c12::change(s, &S1, 0, &[2], &[&[5]]) }
+    { cc_simple_two_learners_23, "C12", quick, unwind = 8,
+      "Changer::simple on S3: ['AddLearnerNode', 'AddLearnerNode'] with ids [2, 3] (demoting two voters at once must be rejected); auto_leave symbolic; reference-semantics equality, invariants (voters/learners disjoint, staged learners inside outgoing, >=1 voter, progress = members), <=1 voter changed for simple, quorum overlap old/new with two symbolic quorums, reject leaves everything untouched",
+      |s| c12::change(s, &S3, 0, &[2, 2], &[&[2, 3]]) }
+    { cc_simple_two_learners_22, "C12", quick, unwind = 8,
+      "Changer::simple on S3: ['AddLearnerNode', 'AddLearnerNode'] with ids [2, 2] (demoting two voters at once must be rejected); auto_leave symbolic; reference-semantics equality, invariants (voters/learners disjoint, staged learners inside outgoing, >=1 voter, progress = members), <=1 voter changed for simple, quorum overlap old/new with two symbolic quorums, reject leaves everything untouched",
+      |s| c12::change(s, &S3, 0, &[2, 2], &[&[2, 2]]) }
+    { cc_simple_two_learners_45, "C12", thorough, unwind = 8,
+      "Changer::simple on S3: ['AddLearnerNode', 'AddLearnerNode'] with ids [4, 5] (demoting two voters at once must be rejected); auto_leave symbolic; reference-semantics equality, invariants (voters/learners disjoint, staged learners inside outgoing, >=1 voter, progress = members), <=1 voter changed for simple, quorum overlap old/new with two symbolic quorums, reject leaves everything untouched",
+      |s| c12::change(s, &S3, 0, &[2, 2], &[&[4, 5]]) }
+    { cc_simple_two_learners_02, "C12", thorough, unwind = 8,
+      "Changer::simple on S3: ['AddLearnerNode', 'AddLearnerNode'] with ids [0, 2] (demoting two voters at once must be rejected); auto_leave symbolic; reference-semantics equality, invariants (voters/learners disjoint, staged learners inside outgoing, >=1 voter, progress = members), <=1 voter changed for simple, quorum overlap old/new with two symbolic quorums, reject leaves everything untouched",
+      |s| c12::change(s, &S3, 0, &[2, 2], &[&[0, 2]]) }
+    { cc_simple_add_remove_44, "C12", quick, unwind = 8,
+      "Changer::simple on S3L: ['AddNode', 'RemoveNode'] with ids [4, 4] (add and remove); auto_leave symbolic; reference-semantics equality, invariants (voters/learners disjoint, staged learners inside outgoing, >=1 voter, progress = members), <=1 voter changed for simple, quorum overlap old/new with two symbolic quorums, reject leaves everything untouched",
+      |s| c12::change(s, &S3L, 0, &[0, 1], &[&[4, 4]]) }
+    { cc_simple_add_remove_53, "C12", quick, unwind = 8,
+      "Changer::simple on S3L: ['AddNode', 'RemoveNode'] with ids [5, 3] (add and remove); auto_leave symbolic; reference-semantics equality, invariants (voters/learners disjoint, staged learners inside outgoing, >=1 voter, progress = members), <=1 voter changed for simple, quorum overlap old/new with two symbolic quorums, reject leaves everything untouched",
+      |s| c12::change(s, &S3L, 0, &[0, 1], &[&[5, 3]]) }
+    { cc_simple_add_remove_43, "C12", thorough, unwind = 8,
+      "Changer::simple on S3L: ['AddNode', 'RemoveNode'] with ids [4, 3] (add and remove); auto_leave symbolic; reference-semantics equality, invariants (voters/learners disjoint, staged learners inside outgoing, >=1 voter, progress = members), <=1 voter changed for simple, quorum overlap old/new with two symbolic quorums, reject leaves everything untouched",
+      |s| c12::change(s, &S3L, 0, &[0, 1], &[&[4, 3]]) }
+    { cc_simple_add_remove_55, "C12", thorough, unwind = 8,
+      "Changer::simple on S3L: ['AddNode', 'RemoveNode'] with ids [5, 5] (add and remove); auto_leave symbolic; reference-semantics equality, invariants (voters/learners disjoint, staged learners inside outgoing, >=1 voter, progress = members), <=1 voter changed for simple, quorum overlap old/new with two symbolic quorums, reject leaves everything untouched",
+      |s| c12::change(s, &S3L, 0, &[0, 1], &[&[5, 5]]) }
+    { cc_simple_add_remove_22, "C12", thorough, unwind = 8,
+      "Changer::simple on S3L: ['AddNode', 'RemoveNode'] with ids [2, 2] (add and remove); auto_leave symbolic; reference-semantics equality, invariants (voters/learners disjoint, staged learners inside outgoing, >=1 voter, progress = members), <=1 voter changed for simple, quorum overlap old/new with two symbolic quorums, reject leaves everything untouched",
+      |s| c12::change(s, &S3L, 0, &[0, 1], &[&[2, 2]]) }
+    { cc_enter_add_remove_53, "C12", quick, unwind = 8,
+      "Changer::enter_joint on S3L: ['AddNode', 'RemoveNode'] with ids [5, 3] (enter joint: add and remove); auto_leave symbolic; reference-semantics equality, invariants (voters/learners disjoint, staged learners inside outgoing, >=1 voter, progress = members), <=1 voter changed for simple, quorum overlap old/new with two symbolic quorums, reject leaves everything untouched",
+      |s| c12::change(s, &S3L, 1, &[0, 1], &[&[5, 3]]) }
+    { cc_enter_add_remove_41, "C12", quick, unwind = 8,
+      "Changer::enter_joint on S3L: ['AddNode', 'RemoveNode'] with ids [4, 1] (enter joint: add and remove); auto_leave symbolic; reference-semantics equality, invariants (voters/learners disjoint, staged learners inside outgoing, >=1 voter, progress = members), <=1 voter changed for simple, quorum overlap old/new with two symbolic quorums, reject leaves everything untouched",
+      |s| c12::change(s, &S3L, 1, &[0, 1], &[&[4, 1]]) }
+    { cc_enter_add_remove_44, "C12", thorough, unwind = 8,
+      "Changer::enter_joint on S3L: ['AddNode', 'RemoveNode'] with ids [4, 4] (enter joint: add and remove); auto_leave symbolic; reference-semantics equality, invariants (voters/learners disjoint, staged learners inside outgoing, >=1 voter, progress = members), <=1 voter changed for simple, quorum overlap old/new with two symbolic quorums, reject leaves everything untouched",
+      |s| c12::change(s, &S3L, 1, &[0, 1], &[&[4, 4]]) }
+    { cc_enter_add_remove_22, "C12", thorough, unwind = 8,
+      "Changer::enter_joint on S3L: ['AddNode', 'RemoveNode'] with ids [2, 2] (enter joint: add and remove); auto_leave symbolic; reference-semantics equality, invariants (voters/learners disjoint, staged learners inside outgoing, >=1 voter, progress = members), <=1 voter changed for simple, quorum overlap old/new with two symbolic quorums, reject leaves everything untouched",
+      |s| c12::change(s, &S3L, 1, &[0, 1], &[&[2, 2]]) }
+    { cc_enter_add_remove_50, "C12", thorough, unwind = 8,
+      "Changer::enter_joint on S3L: ['AddNode', 'RemoveNode'] with ids [5, 0] (enter joint: add and remove); auto_leave symbolic; reference-semantics equality, invariants (voters/learners disjoint, staged learners inside outgoing, >=1 voter, progress = members), <=1 voter changed for simple, quorum overlap old/new with two symbolic quorums, reject leaves everything untouched",
+      |s| c12::change(s, &S3L, 1, &[0, 1], &[&[5, 0]]) }
+    { cc_enter_learner_add_33, "C12", quick, unwind = 8,
+      "Changer::enter_joint on S3L: ['AddLearnerNode', 'AddNode'] with ids [3, 3] (enter joint: demote then (re-)promote); auto_leave symbolic; reference-semantics equality, invariants (voters/learners disjoint, staged learners inside outgoing, >=1 voter, progress = members), <=1 voter changed for simple, quorum overlap old/new with two symbolic quorums, reject leaves everything untouched",
+      |s| c12::change(s, &S3L, 1, &[2, 0], &[&[3, 3]]) }
+    { cc_enter_learner_add_35, "C12", quick, unwind = 8,
+      "Changer::enter_joint on S3L: ['AddLearnerNode', 'AddNode'] with ids [3, 5] (enter joint: demote then (re-)promote); auto_leave symbolic; reference-semantics equality, invariants (voters/learners disjoint, staged learners inside outgoing, >=1 voter, progress = members), <=1 voter changed for simple, quorum overlap old/new with two symbolic quorums, reject leaves everything untouched",
+      |s| c12::change(s, &S3L, 1, &[2, 0], &[&[3, 5]]) }
+    { cc_enter_learner_add_55, "C12", thorough, unwind = 8,
+      "Changer::enter_joint on S3L: ['AddLearnerNode', 'AddNode'] with ids [5, 5] (enter joint: demote then (re-)promote); auto_leave symbolic; reference-semantics equality, invariants (voters/learners disjoint, staged learners inside outgoing, >=1 voter, progress = members), <=1 voter changed for simple, quorum overlap old/new with two symbolic quorums, reject leaves everything untouched",
+      |s| c12::change(s, &S3L, 1, &[2, 0], &[&[5, 5]]) }
+    { cc_enter_learner_add_44, "C12", thorough, unwind = 8,
+      "Changer::enter_joint on S3L: ['AddLearnerNode', 'AddNode'] with ids [4, 4] (enter joint: demote then (re-)promote); auto_leave symbolic; reference-semantics equality, invariants (voters/learners disjoint, staged learners inside outgoing, >=1 voter, progress = members), <=1 voter changed for simple, quorum overlap old/new with two symbolic quorums, reject leaves everything untouched",
+      |s| c12::change(s, &S3L, 1, &[2, 0], &[&[4, 4]]) }
+    { cc_enter_learner_add_24, "C12", thorough, unwind = 8,
+      "Changer::enter_joint on S3L: ['AddLearnerNode', 'AddNode'] with ids [2, 4] (enter joint: demote then (re-)promote); auto_leave symbolic; reference-semantics equality, invariants (voters/learners disjoint, staged learners inside outgoing, >=1 voter, progress = members), <=1 voter changed for simple, quorum overlap old/new with two symbolic quorums, reject leaves everything untouched",
+      |s| c12::change(s, &S3L, 1, &[2, 0], &[&[2, 4]]) }
+    { cc_enter_remove_learner_33, "C12", quick, unwind = 8,
+      "Changer::enter_joint on S3L: ['RemoveNode', 'AddLearnerNode'] with ids [3, 3] (enter joint: remove then add as learner); auto_leave symbolic; reference-semantics equality, invariants (voters/learners disjoint, staged learners inside outgoing, >=1 voter, progress = members), <=1 voter changed for simple, quorum overlap old/new with two symbolic quorums, reject leaves everything untouched",
+      |s| c12::change(s, &S3L, 1, &[1, 2], &[&[3, 3]]) }
+    { cc_enter_remove_learner_44, "C12", quick, unwind = 8,
+      "Changer::enter_joint on S3L: ['RemoveNode', 'AddLearnerNode'] with ids [4, 4] (enter joint: remove then add as learner); auto_leave symbolic; reference-semantics equality, invariants (voters/learners disjoint, staged learners inside outgoing, >=1 voter, progress = members), <=1 voter changed for simple, quorum overlap old/new with two symbolic quorums, reject leaves everything untouched",
+      |s| c12::change(s, &S3L, 1, &[1, 2], &[&[4, 4]]) }
+    { cc_enter_remove_learner_12, "C12", thorough, unwind = 8,
+      "Changer::enter_joint on S3L: ['RemoveNode', 'AddLearnerNode'] with ids [1, 2] (enter joint: remove then add as learner); auto_leave symbolic; reference-semantics equality, invariants (voters/learners disjoint, staged learners inside outgoing, >=1 voter, progress = members), <=1 voter changed for simple, quorum overlap old/new with two symbolic quorums, reject leaves everything untouched",
+      |s| c12::change(s, &S3L, 1, &[1, 2], &[&[1, 2]]) }
+    { cc_enter_remove_learner_35, "C12", thorough, unwind = 8,
+      "Changer::enter_joint on S3L: ['RemoveNode', 'AddLearnerNode'] with ids [3, 5] (enter joint: remove then add as learner); auto_leave symbolic; reference-semantics equality, invariants (voters/learners disjoint, staged learners inside outgoing, >=1 voter, progress = members), <=1 voter changed for simple, quorum overlap old/new with two symbolic quorums, reject leaves everything untouched",
+      |s| c12::change(s, &S3L, 1, &[1, 2], &[&[3, 5]]) }
+    { cc_enter_learner_learner_23, "C12", quick, unwind = 8,
+      "Changer::enter_joint on S3L: ['AddLearnerNode', 'AddLearnerNode'] with ids [2, 3] (enter joint: two demotions (staged learners)); auto_leave symbolic; reference-semantics equality, invariants (voters/learners disjoint, staged learners inside outgoing, >=1 voter, progress = members), <=1 voter changed for simple, quorum overlap old/new with two symbolic quorums, reject leaves everything untouched",
+      |s| c12::change(s, &S3L, 1, &[2, 2], &[&[2, 3]]) }
+    { cc_enter_learner_learner_33, "C12", quick, unwind = 8,
+      "Changer::enter_joint on S3L: ['AddLearnerNode', 'AddLearnerNode'] with ids [3, 3] (enter joint: two demotions (staged learners)); auto_leave symbolic; reference-semantics equality, invariants (voters/learners disjoint, staged learners inside outgoing, >=1 voter, progress = members), <=1 voter changed for simple, quorum overlap old/new with two symbolic quorums, reject leaves everything untouched",
+      |s| c12::change(s, &S3L, 1, &[2, 2], &[&[3, 3]]) }
+    { cc_enter_learner_learner_45, "C12", thorough, unwind = 8,
+      "Changer::enter_joint on S3L: ['AddLearnerNode', 'AddLearnerNode'] with ids [4, 5] (enter joint: two demotions (staged learners)); auto_leave symbolic; reference-semantics equality, invariants (voters/learners disjoint, staged learners inside outgoing, >=1 voter, progress = members), <=1 voter changed for simple, quorum overlap old/new with two symbolic quorums, reject leaves everything untouched",
+      |s| c12::change(s, &S3L, 1, &[2, 2], &[&[4, 5]]) }
+    { cc_enter_learner_learner_14, "C12", thorough, unwind = 8,
+      "Changer::enter_joint on S3L: ['AddLearnerNode', 'AddLearnerNode'] with ids [1, 4] (enter joint: two demotions (staged learners)); auto_leave symbolic; reference-semantics equality, invariants (voters/learners disjoint, staged learners inside outgoing, >=1 voter, progress = members), <=1 voter changed for simple, quorum overlap old/new with two symbolic quorums, reject leaves everything untouched",
+      |s| c12::change(s, &S3L, 1, &[2, 2], &[&[1, 4]]) }
+    { cc_enter_add_remove_add_555, "C12", quick, unwind = 8,
+      "Changer::enter_joint on S3: ['AddNode', 'RemoveNode', 'AddNode'] with ids [5, 5, 5] (enter joint: the same untracked id added, removed and re-added in one list); auto_leave symbolic; reference-semantics equality, invariants (voters/learners disjoint, staged learners inside outgoing, >=1 voter, progress = members), <=1 voter changed for simple, quorum overlap old/new with two symbolic quorums, reject leaves everything untouched",
+      |s| c12::change(s, &S3, 1, &[0, 1, 0], &[&[5, 5, 5]]) }
+    { cc_enter_add_remove_add_434, "C12", quick, unwind = 8,
+      "Changer::enter_joint on S3: ['AddNode', 'RemoveNode', 'AddNode'] with ids [4, 3, 4] (enter joint: the same untracked id added, removed and re-added in one list); auto_leave symbolic; reference-semantics equality, invariants (voters/learners disjoint, staged learners inside outgoing, >=1 voter, progress = members), <=1 voter changed for simple, quorum overlap old/new with two symbolic quorums, reject leaves everything untouched",
+      |s| c12::change(s, &S3, 1, &[0, 1, 0], &[&[4, 3, 4]]) }
+    { cc_enter_add_remove_add_333, "C12", thorough, unwind = 8,
+      "Changer::enter_joint on S3: ['AddNode', 'RemoveNode', 'AddNode'] with ids [3, 3, 3] (enter joint: the same untracked id added, removed and re-added in one list); auto_leave symbolic; reference-semantics equality, invariants (voters/learners disjoint, staged learners inside outgoing, >=1 voter, progress = members), <=1 voter changed for simple, quorum overlap old/new with two symbolic quorums, reject leaves everything untouched",
+      |s| c12::change(s, &S3, 1, &[0, 1, 0], &[&[3, 3, 3]]) }
+    { cc_enter_add_remove_add_445, "C12", thorough, unwind = 8,
+      "Changer::enter_joint on S3: ['AddNode', 'RemoveNode', 'AddNode'] with ids [4, 4, 5] (enter joint: the same untracked id added, removed and re-added in one list); auto_leave symbolic; reference-semantics equality, invariants (voters/learners disjoint, staged learners inside outgoing, >=1 voter, progress = members), <=1 voter changed for simple, quorum overlap old/new with two symbolic quorums, reject leaves everything untouched",
+      |s| c12::change(s, &S3, 1, &[0, 1, 0], &[&[4, 4, 5]]) }
+    { cc_enter_learner_remove_learner_555, "C12", quick, unwind = 8,
+      "Changer::enter_joint on S3: ['AddLearnerNode', 'RemoveNode', 'AddLearnerNode'] with ids [5, 5, 5] (enter joint: learner added, removed, re-added); auto_leave symbolic; reference-semantics equality, invariants (voters/learners disjoint, staged learners inside outgoing, >=1 voter, progress = members), <=1 voter changed for simple, quorum overlap old/new with two symbolic quorums, reject leaves everything untouched",
+      |s| c12::change(s, &S3, 1, &[2, 1, 2], &[&[5, 5, 5]]) }
+    { cc_enter_learner_remove_learner_333, "C12", quick, unwind = 8,
+      "Changer::enter_joint on S3: ['AddLearnerNode', 'RemoveNode', 'AddLearnerNode'] with ids [3, 3, 3] (enter joint: learner added, removed, re-added); auto_leave symbolic; reference-semantics equality, invariants (voters/learners disjoint, staged learners inside outgoing, >=1 voter, progress = members), <=1 voter changed for simple, quorum overlap old/new with two symbolic quorums, reject leaves everything untouched",
+      |s| c12::change(s, &S3, 1, &[2, 1, 2], &[&[3, 3, 3]]) }
+    { cc_enter_learner_remove_learner_434, "C12", thorough, unwind = 8,
+      "Changer::enter_joint on S3: ['AddLearnerNode', 'RemoveNode', 'AddLearnerNode'] with ids [4, 3, 4] (enter joint: learner added, removed, re-added); auto_leave symbolic; reference-semantics equality, invariants (voters/learners disjoint, staged learners inside outgoing, >=1 voter, progress = members), <=1 voter changed for simple, quorum overlap old/new with two symbolic quorums, reject leaves everything untouched",
+      |s| c12::change(s, &S3, 1, &[2, 1, 2], &[&[4, 3, 4]]) }
+    { cc_simple_while_joint, "C12", quick, unwind = 8,
+      "Changer::simple on a joint configuration is rejected, tracker untouched",
+      |s| c12::change(s, &J2, 0, &[0], &[&[5]]) }
+    { cc_enter_while_joint, "C12", quick, unwind = 8,
+      "enter_joint on a joint configuration is rejected",
+      |s| c12::change(s, &J1, 1, &[0], &[&[5]]) }
+    { cc_leave_j1, "C12", quick, unwind = 8,
+      "Changer::leave_joint on {1,2}&&{1,2,3} learners {4} staged {3} auto_leave: staged learner becomes learner, outgoing-only peers lose their progress",
+      |s| c12::change(s, &J1, 2, &[], &[]) }
+    { cc_leave_j2, "C12", quick, unwind = 8,
+      "Changer::leave_joint on {1,2,4}&&{1,2,3}",
+      |s| c12::change(s, &J2, 2, &[], &[]) }
+    { cc_leave_nonjoint, "C12", quick, unwind = 8,
+      "leave_joint on a non-joint configuration is rejected",
+      |s| c12::change(s, &S3, 2, &[], &[]) }
+    { cc_roundtrip_s3, "C12", quick, unwind = 8,
+      "restore(fresh tracker, to_conf_state(C)) reproduces C (sets, auto_leave, progress keys) for C = S3",
+      |s| c12::round_trip(s, &S3) }
+    { cc_roundtrip_s3l, "C12", quick, unwind = 8,
+      "restore(fresh tracker, to_conf_state(C)) reproduces C (sets, auto_leave, progress keys) for C = S3L",
+      |s| c12::round_trip(s, &S3L) }
+    { cc_roundtrip_s1, "C12", quick, unwind = 8,
+      "restore(fresh tracker, to_conf_state(C)) reproduces C (sets, auto_leave, progress keys) for C = S1",
+      |s| c12::round_trip(s, &S1) }
+    { cc_roundtrip_j1, "C12", quick, unwind = 8,
+      "restore(fresh tracker, to_conf_state(C)) reproduces C (sets, auto_leave, progress keys) for C = J1",
+      |s| c12::round_trip(s, &J1) }
+    { cc_roundtrip_j2, "C12", quick, unwind = 8,
+      "restore(fresh tracker, to_conf_state(C)) reproduces C (sets, auto_leave, progress keys) for C = J2",
+      |s| c12::round_trip(s, &J2) }
+    { apply_demote_transferee, "C17,C12,C09", quick, unwind = 8,
+      "leader with a pending transfer to 2 applies AddLearnerNode(2): 2 leaves the voters -> transfer abandoned; commit rule under the new configuration",
+      |s| c12::apply_step(s, &L21_PP, &[(2, 2)], 0, Some(2)) }
+    { apply_remove_transferee, "C17,C12,C09", quick, unwind = 8,
+      "leader with a pending transfer to 2 applies RemoveNode(2) -> transfer abandoned",
+      |s| c12::apply_step(s, &L21_PP, &[(1, 2)], 0, Some(2)) }
+    { apply_keep_transferee, "C17,C12,C09", quick, unwind = 8,
+      "leader with a pending transfer to 2 applies AddNode(4): target still a voter -> transfer stays pending",
+      |s| c12::apply_step(s, &L21_PP, &[(0, 4)], 0, Some(2)) }
+    { apply_leader_demotes_itself, "C09,C12", quick, unwind = 8,
+      "leader applies AddLearnerNode(1) (its own demotion): it is no longer promotable",
+      |s| c12::apply_step(s, &L21_PP, &[(2, 1)], 0, None) }
+    { apply_leader_removes_itself, "C09,C12,C20", quick, unwind = 8,
+      "leader applies RemoveNode(1): no longer promotable, no panic",
+      |s| c12::apply_step(s, &L21_PP, &[(1, 1)], 0, None) }
+    { apply_follower_enter_joint, "C09,C12", quick, unwind = 8,
+      "follower applies an explicit enter-joint change (add 4, remove 3): joint configuration per reference semantics, promotable kept",
+      |s| c12::apply_step(s, &F30, &[(0, 4), (1, 3)], 2, None) }
+    { apply_follower_leave_nonjoint, "C09,C12", quick, unwind = 8,
+      "follower applies a leave-joint change while not joint: rejected, nothing changes",
+      |s| c12::apply_step(s, &F30, &[], 0, None) }
+    { apply_follower_demoted, "C09,C12", quick, unwind = 8,
+      "follower applies AddLearnerNode(1): not promotable any more",
+      |s| c12::apply_step(s, &F30, &[(2, 1)], 0, None) }
     // ---------------- C14 RaftLog ----------------
     { dbg1, "DBG", quick, unwind = 10, "dbg", |s| c14::dbg1(s, &L21T) }
     { dbg2, "DBG", quick, unwind = 10, "dbg", |s| c14::dbg2(s, &L21T) }
